@@ -192,12 +192,15 @@ def rowsAre (t : List Row) (name keys : String) (r0 r1 : Bool) (kind : Nat) : Bo
   t.all (fun r => !(r.name == name && r.keys == keys) || (r.r0 == r0 && r.r1 == r1 && r.kind == kind))
 
 /-- **gen_groups_ok.**  Which runs the code groups, read from the regenerated bits: character insertion
-    (`self-insert` on `Keys.Any`), Backspace (`backward-delete-char` on `c-h` = backspace) and Delete
-    (`delete-char` on `delete`) snapshot when they are NOT a repeat and do not when they are. -/
+    (`self-insert` on `Keys.Any`), Backspace (`backward-delete-char` on `c-h` = backspace), Delete
+    (`delete-char` on `delete`) and character insertion at several cursors (`_insert_text_multiple_cursors` on
+    `Keys.Any` in Vi multiple-cursor insert mode: c-v, motion, I / A) snapshot when they are NOT a repeat and
+    do not when they are. -/
 theorem gen_groups_ok :
     rowsAre Gen.C07.table "named_commands.self_insert" "<any>" true false 0 = true ∧
     rowsAre Gen.C07.table "named_commands.backward_delete_char" "c-h" true false 0 = true ∧
-    rowsAre Gen.C07.table "named_commands.delete_char" "delete" true false 0 = true := by
+    rowsAre Gen.C07.table "named_commands.delete_char" "delete" true false 0 = true ∧
+    rowsAre Gen.C07.table "vi.load_vi_bindings._insert_text_multiple_cursors" "<any>" true false 0 = true := by
   decide +kernel
 
 /-- **gen_undo_keys_ok.**  The undo keys named by the property exist, their handlers call `Buffer.undo()`,
@@ -240,6 +243,38 @@ theorem backspace_bits : ruleOf "named_commands.backward_delete_char" "c-h" fals
 
 theorem delete_bits : ruleOf "named_commands.delete_char" "delete" false = true ∧
     ruleOf "named_commands.delete_char" "delete" true = false := by decide +kernel
+
+theorem multicursor_bits : ruleOf "vi.load_vi_bindings._insert_text_multiple_cursors" "<any>" false = true ∧
+    ruleOf "vi.load_vi_bindings._insert_text_multiple_cursors" "<any>" true = false := by decide +kernel
+
+/-- **shipped_multicursor_typing_then_undo.**  Vi multiple-cursor insert mode (`c-v`, motion, `I` / `A`): with the
+    rule of the shipped `_insert_text_multiple_cursors` binding, after anything that was not that binding, type
+    ANY non-empty sequence of characters (each call inserts its character at every cursor: the text gets
+    longer), then ANY number of text-preserving commands (Left / Right, Escape, a CPR is no command at all): ONE
+    undo restores exactly the text and cursor from before the first character. -/
+theorem shipped_multicursor_typing_then_undo (h : Nat) (k0 : KSt) (hp : k0.prev ≠ some h) (f : Buf → Buf)
+    (fs : List (Buf → Buf)) (hgrow : ∀ g ∈ f :: fs, ∀ b, b.text.length < (g b).text.length)
+    (ms : List (Nat × (Bool → Bool) × (Buf → Buf))) (hms : ∀ m ∈ ms, ∀ b, (m.2.2 b).text = b.text) :
+    (undo (runKeep ms (runSame h (ruleOf "vi.load_vi_bindings._insert_text_multiple_cursors" "<any>")
+      (f :: fs) k0)).st).buf = k0.st.buf :=
+  group_then_motions_then_undo h _ multicursor_bits.1 multicursor_bits.2 k0 hp f fs ms hms
+    (runSame_grows_text_ne h _ k0 f fs hgrow)
+
+/-- **shipped_multicursor_two_runs.**  … and two such runs split by text-preserving commands (x y, Left, z): the
+    first undo restores the exact state before the second run, the second undo the state before the first. -/
+theorem shipped_multicursor_two_runs (h : Nat) (k0 : KSt) (hp : k0.prev ≠ some h) (f : Buf → Buf)
+    (fs : List (Buf → Buf)) (g : Buf → Buf) (gs : List (Buf → Buf))
+    (hgrow : ∀ x ∈ f :: fs ++ g :: gs, ∀ b, b.text.length < (x b).text.length)
+    (ms : List (Nat × (Bool → Bool) × (Buf → Buf))) (hms : ∀ m ∈ ms, ∀ b, (m.2.2 b).text = b.text) :
+    let r := ruleOf "vi.load_vi_bindings._insert_text_multiple_cursors" "<any>"
+    let k2 := runKeep ms (runSame h r (f :: fs) k0)
+    let k3 := runSame h r (g :: gs) k2
+    k2.prev ≠ some h → (undo k3.st).buf = k2.st.buf ∧ (undo (undo k3.st)).buf = k0.st.buf := by
+  intro r k2 k3 hp2
+  exact two_groups_two_undos h h r r multicursor_bits.1 multicursor_bits.2 multicursor_bits.1 multicursor_bits.2
+    k0 hp f fs ms hms g gs hp2
+    (runSame_grows_text_ne h r k0 f fs (fun x hx => hgrow x (by simp at hx ⊢; rcases hx with hx | hx <;> simp [hx])))
+    (runSame_grows_text_ne h r k2 g gs (fun x hx => hgrow x (by simp at hx ⊢; rcases hx with hx | hx <;> simp [hx])))
 
 /-- **shipped_typing_then_undo.**  With the rule of the shipped self-insert binding (whatever Binding
     object `h` carries it): after anything that was not self-insert, type ANY non-empty string; one undo
@@ -316,6 +351,18 @@ example :
   ⟨by decide, by decide,
    table_undo_reaches_initial _ gen_ok exRowOf exTItems exTableSession exB0
      (by simp [exTItems, ExtOK]) 2 (by decide)⟩
+
+/-- shipped_multicursor_typing_then_undo: `ab⏎cd`, cursors at 0 and 3, type `x`, `y` (each inserted at both cursors),
+    Escape (a text-preserving command of another binding), one undo: hypotheses hold, the old state is back -/
+example :
+    let ins2 (c : Char) : Buf → Buf := fun b =>
+      { text := [c] ++ b.text.take 2 ++ ['\n', c] ++ b.text.drop 3, cur := b.cur + 1 }
+    let k0 : KSt := { st := { buf := { text := ['a', 'b', '\n', 'c', 'd'], cur := 0 }, undo := [], redo := [] }, prev := some 7 }
+    let r := ruleOf "vi.load_vi_bindings._insert_text_multiple_cursors" "<any>"
+    let k1 := runSame 4 r [ins2 'x'] k0
+    k0.prev ≠ some 4 ∧ k1.st.buf.text = ['x', 'a', 'b', '\n', 'x', 'c', 'd'] ∧
+    (undo (runKeep [(20, (fun _ => true), leftInLine)] k1).st).buf = k0.st.buf := by
+  decide +kernel
 
 /-- undo_chain_then_redos_exact: C-_ then C-x C-u (two different Binding objects), each restoring something -/
 example :
